@@ -116,6 +116,15 @@ def run(ctx):
         rng.shuffle(sh)
         sh = [("q%d" % k, s) for k, (n, s) in enumerate(sh)]
         pres.append(("shuffled+renamed", gen.fasta_text(sh)))
+        # the other two readers, with long descriptive names spelled in letters of the OTHER class (the decision must not look at names)
+        import random as _random
+        from props import c04
+        other = "ACGT" if exp == 0 else "EFILPQ"
+        ln = [("%s_%d" % ("".join(rng.choice(other) for _ in range(rng.choice([12, 30, 60]))), k), q) for k, (n_, q) in enumerate(recs)]
+        if all(q for _, q in ln):
+            rows = c04.gap_rows(rng, ln, 0.02)
+            pres.append(("msf long names", c04.render_msf(_random.Random(rng.getrandbits(30)), rows)))
+            pres.append(("clustal long names", c04.render_clustal(_random.Random(rng.getrandbits(30)), rows)))
         for tag, txt in pres:
             for t in (5, 0 if exp == 1 else 3, 3 if exp == 1 else 0):
                 c = Case(recs, t, fmt="msf", intext=txt, tag="%s type=%d" % (tag, t))
